@@ -373,6 +373,8 @@ func vfGenProdCase(t *rapid.T, emph string) *vfProdCase {
 		}
 		c.Faults = map[string][]vfFault{}
 		c.Script = []vfStep{{Op: "send", A: 0, B: len(c.Msgs)}, {Op: "waitOutcomes", A: len(c.Msgs)}}
+		c.CloseMode = "async" // Close() drains Successes() itself and would compete with the collector for events
+
 		c.Conf.RetryMax = rapid.IntRange(0, 1).Draw(t, "c17retry")
 		c.Conf.BackoffUs = 0
 	}
